@@ -44,7 +44,10 @@ class C13(Prop):
             return
         # each hole of the escape output is the escaped text of an element: starts with &lt; and has no raw < or >
         # (an inclusion / exclusion macro can delete every line of an HTML block: its text, and so its escaped text, is empty)
-        hole = '(?:&lt;[^<>]*?)?' if re.search(r'\{[\w-]+[!=]', case['src']) else '(?:&lt;[^<>]*?)'
+        # ... and every & of it starts one of the three escapes
+        # (it need not start with &lt;: a +specials option on an HTML block escapes its text before the policy does)
+        esc_text = '(?:[^<>&]|&amp;|&lt;|&gt;)+?'
+        hole = '(?:%s)?' % esc_text if re.search(r'\{[\w-]+[!=]', case['src']) else '(?:%s)' % esc_text
         pat = hole.join(re.escape(s) for s in segs)
         if not re.fullmatch(pat, nonl(outs[3]), re.S):
             res.violation('escape and replace policies differ beyond the HTML elements', case, {'escape': outs[3], 'replace': outs[2]})
